@@ -20,7 +20,7 @@ REQUIRED = ["delivered", "peer_address_ok", "fds_closed_by_library", "accept_eag
             "accept_nonretriable", "error_callbacks", "nonretriable_without_errcb", "fallback_accept_calls",
             "disables", "enables", "disable_in_callback", "setcb_null", "free_in_callback", "free_outside_callback",
             "free_closed_socket", "free_kept_socket", "listeners_created_disabled", "listeners_created_without_cb",
-            "listeners_unix", "listeners_tcp4", "drain_checks", "client_reset_before_accept"]
+            "listeners_unix", "listeners_tcp4", "drain_checks", "client_reset_before_accept", "disable_then_free_in_callback"]
 REG = dict(
     category="exploration",
     text=("Runs the real evconnlistener over loopback TCP and AF_UNIX sockets under randomly generated histories of connects, "
